@@ -1,4 +1,5 @@
 import Secp.Proofs.FrontBip
+import Secp.Proofs.FrontFromPub
 import Secp.Proofs.DriversDerive
 import Secp.Proofs.DriversAdaptor
 import Secp.Proofs.DriversChild
@@ -124,6 +125,13 @@ theorem fromSeed_regenerated (O : Oracles) (seed ms : Bytes) :
 theorem public_regenerated (e : ExtKey) : Secp.Gen.Drivers.publicGen (tup e) = DR.ok (tup e.neuter) :=
   Secp.Proofs.FrontBip.public_regenerated e
 
+
+/-- `FromPublicKey` regenerated = `fromPublicKey`: only the chain-code length is checked, and the key data is the compressed
+    form of the caller's coordinates exactly as given (32 bytes of x, whatever its leading zeros) -/
+theorem fromPublicKey_regenerated (x y : Nat) (cc : Bytes) :
+    Secp.Gen.Drivers.fromPublicKeyGen ((), x, y) cc =
+      (match fromPublicKey x y cc with | .ok e => DR.ok (tup e) | .error _ => DR.err ()) :=
+  Secp.Proofs.FrontFromPub.fromPublicKey_regenerated x y cc
 
 /-- `DeriveWithIL` (the loop over the path with its accumulated tweak, a nil-able big integer) regenerated =
     `deriveWithIL`, for every path of uint32 indices, every starting key of depth below 256 and hash oracles whose
